@@ -4,6 +4,8 @@ ENGINES = [
 ]
 NOTES = "All checks: ./run.sh <id> quick|thorough rebuilds the harness against /repo's working tree (replace directive) and rewrites evidence/<id>.json. known_findings.json is read-only at run time."
 NOT_YET = {}
+ENGINES.append({"name": "E3-sched", "path": "/verif/drivers/verifsched", "serves_properties": ["C10", "C19"],
+     "kind_free_text": "controlled cooperative scheduler (one logical thread at a time, scheduling points at hooked synchronisation and I/O operations) with stateless preemption-bounded depth-first search, state-key pruning over thread pcs / pool contents (full backing arrays) / mutex owners, determinism self-check by double replay, 5x re-run of violations; sync.Pool / sync.Mutex / errgroup shims; free mode for the separate -race pass"})
 ENGINES.append({"name": "E4-mapseam", "path": "/verif/cmd/mapseam, /verif/overlays/verifrt.go.txt", "serves_properties": ["C10", "C11", "C17"],
      "kind_free_text": "map-iteration seam: a go/types based rewriter turns every range over a map (and x/exp/maps.Keys/Values) in the generator packages of the tree under check into a harness-ordered iterator, applied with go build -overlay; the order is an environment answer the explorer controls (default ascending, deviations per dynamic range execution)"})
 ENGINES.append({"name": "E2-regen", "path": "/verif/internal/regen, /verif/drivers", "serves_properties": ["C01", "C02", "C03", "C04", "C05", "C09", "C14", "C15", "C20"],
@@ -128,4 +130,11 @@ CHECKS["C11"] = dict(
     technique="exhaustive single-fault mutation of every node of base documents (17 mutation kinds x 2 spellings) and all short byte strings, each executed in crash-isolated worker subprocesses; positions judged against spans recorded by an own serializer",
     text="Every node of 7 (quick) / ~35 (thorough) base documents x 17 mutation kinds (retype to int/string/bool/null, empty map/seq/string, delete, -1, 2^64, 1e400, 1.5, dangling $ref, self $ref, $ref to parent, duplicated sibling key, 1000-deep nesting) x {indented JSON, block YAML}, every path key x 6 broken percent-escapes, and all byte strings of <= 4/5 symbols over an 18-symbol structural alphabet go through ogen.Parse + gen.NewGenerator (every fifth survivor also through the templates): 4.7e4 documents + 1.1e5 byte strings in quick. Workers are subprocesses: a fatal stack overflow or a hang (10 min watchdog) is attributed to the job in flight. Oracle: no panic, no crash, terminates; every reported position is inside the document and, for in-place mutations, on the mutated node / its key / an ancestor / a $ref or name-linked use site of it / a sibling keyword of the same object; JSON and YAML spellings designate the same node.",
     note="Built with the map-order seam pinned to ascending order, so that diagnostics do not depend on Go's map randomisation (that dependence is C10's subject). Trusted: internal/docmodel spans. 'Bounded memory' is only 'the worker survived'; coverage-guided fuzzing is replaced by bounded-exhaustive byte strings; pairs of mutations are not enumerated.",
+)
+
+CHECKS["C19"] = dict(
+    category="model_checking", engine="E3-sched",
+    technique="stateless preemption-bounded DFS (dynamic exploration of the real regenerated code under a controlled cooperative scheduler, state-key pruning) over all multisets of calls; separate free-running -race pass",
+    text="One regenerated client+server pair (regexp2-fallback and RE2 patterns, multipleOf, JSON / form / streaming bodies, parameters in all locations, validation failures through the default error handler, default response); jx's pools and regexp2's runner mutex are replaced by scheduler-aware shims (scratch copies of the modules, /repo untouched). 2 logical threads x every multiset of 2 calls from a menu of 8 (+ pool-drop deviation), preemption bound 2: 5.1e4 schedules, 9.9e4 states, 3.2e5 transitions, 2.9e6 scheduling points in the quick tier; thorough adds 3 threads, 2 calls per thread and bound 3. Every schedule is an execution of the implementation; oracle: each call's (handler-received arguments, response on the wire, value or error returned to the caller) equals the same call run alone, no deadlock. Harness determinism is proven per shard by double replay; violations are re-run 5x. The same bodies then run free under -race with GOMAXPROCS 1/2/4/16.",
+    note="Exhaustive only at the hooked operations (transport entry/exit, every body Read with 7-byte short reads, WriteHeader/Write, handler entry, pool Get/Put before and after, mutex Lock/Unlock) and up to the preemption bound; steps between hooks are covered only by the sampling -race pass. sync.Pool is a deterministic LIFO plus one 'drop everything' deviation. No sockets, no net/http goroutines.",
 )
